@@ -397,8 +397,8 @@ fn clashes(x: &BTreeMap<String, bool>, y: &BTreeMap<String, bool>) -> Vec<(Strin
 }
 
 struct Worker<'a> {
-    /// divergence classes already written out by this worker
-    said: BTreeSet<String>,
+    /// divergence classes already written out
+    said: &'a Mutex<BTreeSet<String>>,
     bed: Bed,
     factory: &'a Factory,
     /// observations of single worlds: (kind, index, uri)
@@ -451,13 +451,13 @@ fn obs_json(o: &Obs) -> Value {
 }
 
 /// Counts a divergence class and writes out its first instance.
-fn diverge(rep: &mut Report, said: &mut BTreeSet<String>, class: &str, text: String) {
+fn diverge(rep: &mut Report, said: &Mutex<BTreeSet<String>>, class: &str, text: String) {
     rep.add_note(P, &format!("divergence:{class}"), 1);
-    if said.insert(class.to_string()) { rep.divergence(P, format!("[{class}] {text}")); }
+    if said.lock().unwrap().insert(class.to_string()) { rep.divergence(P, format!("[{class}] {text}")); }
 }
 
 /// Compares the model's predicted entries of URI i with a world's tree.
-fn check_prediction(rep: &mut Report, said: &mut BTreeSet<String>, c: &Case, i: usize, o: &Obs) {
+fn check_prediction(rep: &mut Report, said: &Mutex<BTreeSet<String>>, c: &Case, i: usize, o: &Obs) {
     if o.run != "ok" { return }
     for e in &c.ents[i] {
         if e.alt || (e.dump && o.dump != "ok") { continue }
@@ -483,7 +483,7 @@ fn one(rep: &mut Report, w: &mut Worker, c: &Case) {
         let real = real_accepts(&c.kind, &c.u[i]);
         rep.eval(P);
         if real != c.accept[i] {
-            diverge(rep, &mut w.said, "parser", format!("{} {}: the rpki parser {} it, the model says {}", c.kind, short(&c.u[i]),
+            diverge(rep, w.said, "parser", format!("{} {}: the rpki parser {} it, the model says {}", c.kind, short(&c.u[i]),
                 if real { "accepts" } else { "refuses" }, if c.accept[i] { "accepted" } else { "refused" }));
         }
         if !real { reachable = false; }
@@ -494,7 +494,7 @@ fn one(rep: &mut Report, w: &mut Worker, c: &Case) {
     }
     let base = w.base(c);
     if base.run != "ok" {
-        diverge(rep, &mut w.said, &format!("base-world/{}", c.kind), format!("base world of kind {} does not validate: {}", c.kind, base.run));
+        diverge(rep, w.said, &format!("base-world/{}", c.kind), format!("base world of kind {} does not validate: {}", c.kind, base.run));
         return
     }
     // 2. confinement, URI by URI
@@ -508,14 +508,14 @@ fn one(rep: &mut Report, w: &mut Worker, c: &Case) {
                 json!({"behaviour": c.raw, "uri": short(&c.u[i])}), obs_json(&o));
         }
         if o.run.starts_with("panic") || o.dump.starts_with("panic") {
-            diverge(rep, &mut w.said, &format!("panic/{}", c.kind), format!("{} {}: panic ({} / {})", c.kind, short(&c.u[i]), o.run, o.dump));
+            diverge(rep, w.said, &format!("panic/{}", c.kind), format!("{} {}: panic ({} / {})", c.kind, short(&c.u[i]), o.run, o.dump));
         }
         if o.run != "ok" {
             let class = if c.u[i].ends_with('/') { "directory-uri" } else { "other" };
-            diverge(rep, &mut w.said, &format!("single-uri-run-{}/{}/{}", o.run.split(':').next().unwrap(), c.kind, class),
+            diverge(rep, w.said, &format!("single-uri-run-{}/{}/{}", o.run.split(':').next().unwrap(), c.kind, class),
                 format!("{} {}: the run with this URI alone ends {}", c.kind, short(&c.u[i]), o.run));
         }
-        check_prediction(rep, &mut w.said, c, i, &o);
+        check_prediction(rep, w.said, c, i, &o);
         if o.validated[i] == Some(true) { rep.add_note(P, "single_uri_validated", 1); }
         singles.push(o);
     }
@@ -593,7 +593,7 @@ fn one(rep: &mut Report, w: &mut Worker, c: &Case) {
         }
     }
     if reported != (c.clash && alone_ok) && !(c.clash && !alone_ok) {
-        diverge(rep, &mut w.said, &format!("clash-prediction/{}", c.kind), format!("{} {} / {}: the model {} a clash, the code {}", c.kind, short(&c.u[0]), short(&c.u[1]),
+        diverge(rep, w.said, &format!("clash-prediction/{}", c.kind), format!("{} {} / {}: the model {} a clash, the code {}", c.kind, short(&c.u[0]), short(&c.u[1]),
             if c.clash { "expects" } else { "does not expect" }, if reported { "shows one" } else { "shows none" }));
     }
     // both validated?  (informative: a CA that lost its store file would lose its payload)
@@ -633,6 +633,7 @@ pub fn main(args: &Args) -> i32 {
     let chunk = 16usize;
     let next = Mutex::new(0usize);
     let shared = Mutex::new(HashMap::new());
+    let said_all = Mutex::new(BTreeSet::new());
     let mut rep = Report::new("paths");
     rep.touch(P);
     let reports: Vec<Report> = std::thread::scope(|scope| {
@@ -641,9 +642,10 @@ pub fn main(args: &Args) -> i32 {
             let next = &next;
             let factory = &factory;
             let shared = &shared;
+            let said = &said_all;
             scope.spawn(move || {
                 let mut local = Report::new("paths");
-                let mut w = Worker { said: BTreeSet::new(), bed: Bed::new(), factory, singles: HashMap::new(), bases: HashMap::new(),
+                let mut w = Worker { said, bed: Bed::new(), factory, singles: HashMap::new(), bases: HashMap::new(),
                                      shared_singles: shared };
                 loop {
                     let start = { let mut g = next.lock().unwrap(); let s = *g; *g += chunk; s };
